@@ -318,6 +318,7 @@ var c06ParamMaps = []c06Params{
 	{"n-and-m", map[string]string{"n": "$1", "m": "$2"}},
 	{"column-na", map[string]string{"na": "$3"}},
 	{"true", map[string]string{"true": "$4", "p": "$5"}},
+	{"case-variants", map[string]string{"Na": "$6", "NB": "$7", "N": "$8", "M": "$9", "TRUE": "$10"}},
 }
 
 func letsText(lets []letDef) string {
@@ -528,7 +529,7 @@ func c06Main(r *run.Runner) {
 	}
 	var seqs []seq
 	names := []string{"n", "m", "true", "na", "Null", "TRUE"}
-	for _, pm := range c06ParamMaps[:5] {
+	for _, pm := range c06ParamMaps[:6] {
 		param := ""
 		if _, ok := pm.m["p"]; ok {
 			param = "p"
